@@ -294,7 +294,7 @@ def fault_check(label, spec):
 
 def work(task):
     tier, lo, hi, _ = task
-    cases = ircases.all_cases(tier, double=False)
+    cases = ircases.reader_cases(tier)
     bad = []
     n = 0
     for label, spec in cases[lo:hi]:
@@ -313,7 +313,7 @@ def work_fault(task):
 
 
 def fault_bases(tier):
-    cases = ircases.all_cases(tier, double=False)
+    cases = ircases.reader_cases(tier)
     rich = [(l, s) for l, s in cases if l == "base"]
     shapes = [(l, s) for l, s in cases if l.startswith("shape") and s["cfg"]
               and any(m["symbols"] and m["entry"] for m in s["modules"])]
@@ -322,7 +322,7 @@ def fault_bases(tier):
 
 
 def run(ctx):
-    cases = ircases.all_cases(ctx.tier, double=False)
+    cases = ircases.reader_cases(ctx.tier)
     tasks = [(ctx.tier, lo, hi, None)
              for lo, hi in ircases.chunks(len(cases), 20)]
     ctx.rng.shuffle(tasks)
@@ -361,7 +361,7 @@ def run(ctx):
 
 def replay(doc):
     tier = doc.get("tier", "quick")
-    for label, spec in ircases.all_cases(tier, double=False):
+    for label, spec in ircases.reader_cases(tier):
         if label == doc["case"]:
             v = check_spec(label, spec)
             v += fault_check(label, spec)[1]
